@@ -6,29 +6,36 @@ import ExoVerif.Props.C18Assets
 # C18 — x/operator: operator infos, key records, opted states and USD values through export, Validate and import
 
 `exportOperator` / `initOperator` / `validateOperator` mirror x/operator ExportGenesis / InitGenesis /
-GenesisState.Validate (Model/GenesisOperator.lean); `optIn` and `epochEnd` are the two writers of the USD values.
+GenesisState.Validate (Model/GenesisOperator.lean); `optIn`, `optOut` and `epochEnd` are the writers of the USD values.
 
 * `C18_roundtrip_operator_module`: for every state of the stores as the keepers leave them (`OpStoreInv`: distinct operator
   addresses, every stored earnings address set, the three keyed stores ascending with the key derived from the value)
   `initOperator (exportOperator s) = some s` — no panic, every collection reproduced entry by entry, in particular an
   earnings address that differs from the operator's own (`C18_operator_earnings_kept`); hence the same second export
   (`C18_operator_reexport`).
-* validation: `C18_operator_full` (the export of every such state whose cross references are those of reachable states —
-  `OpValidInv` — validates) is REFUTED by three machine-checked witnesses, each one step of a modelled writer away from a
-  state that validates, each reproduced on the real application by a boundary scenario of the `genesis` domain:
-  - F-18o `C18_operator_optin_before_epoch_end_fails`: OptIn writes the (AVS, operator) USD entry at once, the AVS's own
-    USD value is first written at the AVS's next epoch end: "the parsed AVS address should be in the avsUSDValues map";
-  - F-18p `C18_operator_inactive_total_fails`: UpdateVotingPower adds only the ACTIVE operators' totals to the AVS's value
-    but stores the total of an operator below the minimum self delegation too; Validate compares every total with it;
-  - F-18r `C18_operator_avs_without_operators_fails`: an AVS nobody opted into gets USD value 0 at its epoch end;
-    ValidateAVSUSDValues wants the AVS in some opted state.
-  `C18_operator_export_validates_partial` is what holds: with the two extra hypotheses explicit (every AVS USD value
-  belongs to an AVS of some opted state; every (AVS, operator) entry's AVS has a USD value not below the entry's total)
-  the export passes Validate — in particular in the boundary cases total = AVS value, self = total, all three zero.
+* validation: `C18_operator_export_validates` — C18 for the module's Validate at FULL strength on the code as it is (after
+  the F-18o / F-18p / F-18r repairs): the export of every state of the stores as the keepers leave them (`OpStoreInv`,
+  `OpValidInv`) passes GenesisState.Validate (`C18_operator_full_holds`). No extra hypothesis remains; the three value
+  facts of `OpValidInv` the repaired clauses lean on (`usdOpted`, `avsBacked`, `activeCovered`) are invariants, proved
+  inductive under the three writers of these stores: `C18_operator_inv_optIn`, `C18_operator_inv_optOut`,
+  `C18_operator_inv_epochEnd` (OptIn, OptOut, UpdateVotingPower). `C18_operator_equal_figures_validate`: the boundary
+  cases active = AVS value, self = total, all three zero.
+  Regressions for the validator before the repairs (`validatePreFix`): three reachable exports it rejected, each one step
+  of a modelled writer away from a state it accepted, each replayed on the real application by a boundary scenario of the
+  `genesis` domain (silent on the repaired tree, a VIOLATION under the original sig when a repair is reverted):
+  - `C18_regression_F18o`: OptIn writes the (AVS, operator) USD entry at once, the AVS's own USD value is first written at
+    the AVS's next epoch end: "the parsed AVS address should be in the avsUSDValues map" (now: a missing value reads as 0);
+  - `C18_regression_F18p`: UpdateVotingPower adds only the ACTIVE operators' totals to the AVS's value but stores the total
+    of an operator below the minimum self delegation too; Validate compared every total with it (now: the active value);
+  - `C18_regression_F18r`: an AVS nobody opted into gets USD value 0 at its epoch end; ValidateAVSUSDValues wanted the AVS
+    in some opted state (now: a zero value is accepted);
+  `C18_regression_operator_full_prefix_fails`, `C18_regression_prefix_validates_partial` (what the old validator accepted:
+  only with the two extra hypotheses `AvsOpted`, `UsdCovered`).
 * F-18q `C18_inactive_prev_key_resurrected` (core model of Props/C18): an operator that is not in the validator set
   replaces its key — x/dogfood deletes the old key's reverse lookup at once, the PrevConsKey record stays until the epoch
   ends; SetAllPrevConsKeys rebuilds the lookup of every exported previous key, so the re-imported chain holds a lookup
-  the original does not (and nothing ever prunes it). A second, independent refutation of `C18_full`.
+  the original does not (and nothing ever prunes it). A second, independent refutation of `C18_full` (open, like F-18i:
+  the two are the only refutations left for the modules modelled here and in Props/C18).
 -/
 namespace ExoVerif.Genesis
 
@@ -136,12 +143,15 @@ structure OpValidInv (s : OperatorMod) : Prop where
       active ∈ {0, total}; the entry is written for a registered operator -/
   usdOK : ∀ p ∈ s.usd, 0 ≤ p.2.self ∧ p.2.self ≤ p.2.total ∧ 0 ≤ p.2.active ∧ p.2.active ≤ p.2.total ∧
             p.2.operator ∈ s.operators.map (·.1)
+  /-- OptIn writes the (AVS, operator) USD entry together with the opted state, which is never deleted -/
+  usdOpted : ∀ p ∈ s.usd, p.2.avs ∈ optedAVSs (s.optStates.map (·.2))
+  /-- the AVS's value is the sum of the active values of its entries: a non-zero value has an entry, hence an opted state -/
+  avsBacked : ∀ a ∈ s.avsUsd, a.2 ≠ 0 → a.1 ∈ optedAVSs (s.optStates.map (·.2))
+  /-- an entry's active value is 0 from OptIn until the AVS's next epoch end, and one summand of the AVS's value after it -/
+  activeCovered : ∀ p ∈ s.usd, p.2.active ≤ (avsValue s.avsUsd p.2.avs).getD 0
 
-/-- extra hypothesis 1 (fails: F-18r): every AVS with a USD value occurs in some opted state -/
+/-- the two hypotheses the PRE-FIX validator needed on top (both fail on reachable states: F-18r; F-18o, F-18p) -/
 def AvsOpted (s : OperatorMod) : Prop := ∀ a ∈ s.avsUsd, a.1 ∈ optedAVSs (s.optStates.map (·.2))
-
-/-- extra hypothesis 2 (fails: F-18o, F-18p): the AVS of every (AVS, operator) entry has a USD value, not below the
-    entry's total -/
 def UsdCovered (s : OperatorMod) : Prop :=
   ∀ p ∈ s.usd, ∃ v, avsValue s.avsUsd p.2.avs = some v ∧ p.2.total ≤ v
 
@@ -153,12 +163,13 @@ theorem sorted_keys_nodup {β : Type} (l : List (String × β)) (hs : Sorted l) 
   rw [List.pairwise_map]
   exact hs.imp (by intro a b hab e; rw [e] at hab; exact String.lt_irrefl _ hab)
 
-/-- **What holds for the code as it is.** -/
-theorem C18_operator_export_validates_partial (s : OperatorMod) (h : OpStoreInv s) (hv : OpValidInv s)
-    (h1 : AvsOpted s) (h2 : UsdCovered s) : validateOperator (exportOperator s) = true := by
-  have hops : validateOperators (exportOperator s).operators = true := decide_eq_true h.opsNodup
-  have hkeys : validateKeyRecords ((exportOperator s).operators.map (·.1)) (exportOperator s).records = true := by
-    have hflat : flattenRecords (exportOperator s).records = s.keys := flatten_export_records s.keys
+/-- the three checks the repairs did not touch -/
+theorem export_validates_unrepaired (s : OperatorMod) (h : OpStoreInv s) (hv : OpValidInv s) :
+    validateOperators (exportOperator s).operators = true ∧
+    validateKeyRecords ((exportOperator s).operators.map (·.1)) (exportOperator s).records = true ∧
+    validateOptStates ((exportOperator s).operators.map (·.1)) (exportOperator s).optStates = true := by
+  refine ⟨decide_eq_true h.opsNodup, ?_, ?_⟩
+  · have hflat : flattenRecords (exportOperator s).records = s.keys := flatten_export_records s.keys
     have hids : (exportOperator s).records.map (·.1) = dedupAdj (s.keys.map (·.1)) := by
       rw [← groupAdj_ids]
       simp only [exportOperator, List.map_map]
@@ -180,21 +191,83 @@ theorem C18_operator_export_validates_partial (s : OperatorMod) (h : OpStoreInv 
       have := hv.keyOps x (hsub.subset hx)
       rw [hkey x hx] at this
       exact contains_of_mem _ _ this
-  have hopt : validateOptStates ((exportOperator s).operators.map (·.1)) (exportOperator s).optStates = true := by
-    unfold validateOptStates
+  · unfold validateOptStates
     simp only [Bool.and_eq_true, List.all_eq_true]
     refine ⟨decide_eq_true (nodup_of_pairwise_lt _ OptState.key (sorted_values_distinct s.optStates OptState.key h.optKey h.optSorted)), ?_⟩
     intro o ho
     simp only [exportOperator] at ho
     obtain ⟨p, hp, rfl⟩ := List.mem_map.mp ho
     exact ⟨contains_of_mem _ _ (hv.optOK p hp).1, decide_eq_true (hv.optOK p hp).2⟩
-  have havs : validateAvsUsd (optedAVSs (exportOperator s).optStates) (exportOperator s).avsUsd = true := by
+
+/-- **C18 for the x/operator validation, at full strength, for the code as it is (after the F-18o / F-18p / F-18r
+    repairs).** The export of every state of the stores as the keepers leave them validates — no hypothesis beyond the
+    store invariants remains: an entry whose AVS has no value yet has active value 0 ≤ 0 (F-18o), an inactive operator's
+    total is no longer compared with the AVS's value (F-18p), an AVS without opted state has value 0 (F-18r). The three
+    value invariants (`usdOpted`, `avsBacked`, `activeCovered`) are inductive under OptIn, OptOut and UpdateVotingPower:
+    `C18_operator_inv_optIn` / `_optOut` / `_epochEnd`. -/
+theorem C18_operator_export_validates (s : OperatorMod) (h : OpStoreInv s) (hv : OpValidInv s) :
+    validateOperator (exportOperator s) = true := by
+  obtain ⟨hops, hkeys, hopt⟩ := export_validates_unrepaired s h hv
+  have havs : validateAvsUsd codeOpValCfg (optedAVSs (exportOperator s).optStates) (exportOperator s).avsUsd = true := by
     unfold validateAvsUsd
     simp only [Bool.and_eq_true, List.all_eq_true]
     refine ⟨decide_eq_true (sorted_keys_nodup s.avsUsd h.avsSorted), ?_⟩
     intro a ha
-    exact ⟨contains_of_mem _ _ (h1 a ha), decide_eq_true (hv.avsNN a ha)⟩
-  have husd : validateUSD ((exportOperator s).operators.map (·.1)) (exportOperator s).avsUsd (exportOperator s).usd = true := by
+    refine ⟨?_, decide_eq_true (hv.avsNN a ha)⟩
+    by_cases hz : a.2 = 0
+    · simp [codeOpValCfg, hz]
+    · have hm := contains_of_mem _ _ (hv.avsBacked a ha hz)
+      show ((optedAVSs (s.optStates.map (·.2))).contains a.1 || _) = true
+      rw [hm]; rfl
+  have husd : validateUSD codeOpValCfg ((exportOperator s).operators.map (·.1)) (exportOperator s).avsUsd (exportOperator s).usd = true := by
+    unfold validateUSD
+    simp only [Bool.and_eq_true, List.all_eq_true]
+    refine ⟨decide_eq_true (nodup_of_pairwise_lt _ OpUSD.key (sorted_values_distinct s.usd OpUSD.key h.usdKey h.usdSorted)), ?_⟩
+    intro u hu
+    simp only [exportOperator] at hu
+    obtain ⟨p, hp, rfl⟩ := List.mem_map.mp hu
+    obtain ⟨a, b, c, d, e⟩ := hv.usdOK p hp
+    have hcov := hv.activeCovered p hp
+    have htot : 0 ≤ p.2.total := Int.le_trans a b
+    have e1 : (exportOperator s).avsUsd = s.avsUsd := rfl
+    have e2 : (exportOperator s).operators = s.operators := rfl
+    unfold validateUSDItem
+    rw [e1, e2]
+    cases hav : avsValue s.avsUsd p.2.avs with
+    | none =>
+      rw [hav] at hcov
+      simp only [Option.getD_none] at hcov
+      simp [codeOpValCfg, a, htot, c, e, hcov, b, d]
+    | some v =>
+      rw [hav] at hcov
+      simp only [Option.getD_some] at hcov
+      simp [codeOpValCfg, a, htot, c, e, hcov, b, d]
+  unfold validateOperator validateOperatorWith
+  simp only [hops, hkeys, hopt, havs, husd, Bool.and_self]
+
+/-- C18 for the x/operator validation at full strength -/
+def C18_operator_full : Prop :=
+  ∀ s : OperatorMod, OpStoreInv s → OpValidInv s → validateOperator (exportOperator s) = true
+
+/-- … holds for the repaired code (before the repairs it was refuted three times: `C18_regression_F18o/p/r`). What is
+    still refuted on the code as it is lies outside this module's Validate: `C18_full` of the core model, by F-18i
+    (`C18_full_fails`) and F-18q (`C18_full_fails_inactive_prev`). -/
+theorem C18_operator_full_holds : C18_operator_full := fun s h hv => C18_operator_export_validates s h hv
+
+/-- Pre-repair regression: what the validator before the repairs accepted — only with the two extra hypotheses -/
+theorem C18_regression_prefix_validates_partial (s : OperatorMod) (h : OpStoreInv s) (hv : OpValidInv s)
+    (h1 : AvsOpted s) (h2 : UsdCovered s) : validatePreFix (exportOperator s) = true := by
+  obtain ⟨hops, hkeys, hopt⟩ := export_validates_unrepaired s h hv
+  have havs : validateAvsUsd preFixOpValCfg (optedAVSs (exportOperator s).optStates) (exportOperator s).avsUsd = true := by
+    unfold validateAvsUsd
+    simp only [Bool.and_eq_true, List.all_eq_true]
+    refine ⟨decide_eq_true (sorted_keys_nodup s.avsUsd h.avsSorted), ?_⟩
+    intro a ha
+    have hm := contains_of_mem _ _ (h1 a ha)
+    refine ⟨?_, decide_eq_true (hv.avsNN a ha)⟩
+    show ((optedAVSs (s.optStates.map (·.2))).contains a.1 || _) = true
+    rw [hm]; rfl
+  have husd : validateUSD preFixOpValCfg ((exportOperator s).operators.map (·.1)) (exportOperator s).avsUsd (exportOperator s).usd = true := by
     unfold validateUSD
     simp only [Bool.and_eq_true, List.all_eq_true]
     refine ⟨decide_eq_true (nodup_of_pairwise_lt _ OpUSD.key (sorted_values_distinct s.usd OpUSD.key h.usdKey h.usdSorted)), ?_⟩
@@ -205,14 +278,277 @@ theorem C18_operator_export_validates_partial (s : OperatorMod) (h : OpStoreInv 
     obtain ⟨v, hv1, hv2⟩ := h2 p hp
     have htot : 0 ≤ p.2.total := Int.le_trans a b
     have hv1' : avsValue (exportOperator s).avsUsd p.2.avs = some v := hv1
-    simp only [validateUSDItem, hv1', Bool.and_eq_true, decide_eq_true_eq]
+    simp only [validateUSDItem, hv1', preFixOpValCfg, Bool.false_eq_true, if_false, Bool.and_eq_true, decide_eq_true_eq]
     exact ⟨⟨⟨⟨⟨⟨a, htot⟩, c⟩, contains_of_mem _ _ e⟩, hv2⟩, b⟩, d⟩
-  unfold validateOperator
+  unfold validatePreFix validateOperatorWith
   simp only [hops, hkeys, hopt, havs, husd, Bool.and_self]
 
-/-- C18 for the x/operator validation at full strength: the export of every state the module can be in validates -/
-def C18_operator_full : Prop :=
-  ∀ s : OperatorMod, OpStoreInv s → OpValidInv s → validateOperator (exportOperator s) = true
+/-! ## the value invariants are inductive under the writers -/
+
+section Writers
+variable {α : Type}
+
+theorem mem_ssSet (k : String) (v : α) (l : List (String × α)) (x : String × α) (h : x ∈ ssSet k v l) : x = (k, v) ∨ x ∈ l := by
+  induction l with
+  | nil => simp [ssSet] at h; exact Or.inl h
+  | cons p r ih =>
+    obtain ⟨k', v'⟩ := p
+    unfold ssSet at h
+    by_cases e1 : k = k'
+    · simp only [e1, if_true, List.mem_cons] at h
+      rcases h with h | h
+      · left; rw [h, e1]
+      · right; simp [h]
+    · by_cases e2 : k < k'
+      · simp only [e1, e2, if_true, if_false, List.mem_cons] at h
+        rcases h with h | h | h
+        · left; exact h
+        · right; simp [h]
+        · right; simp [h]
+      · simp only [e1, e2, if_false, List.mem_cons] at h
+        rcases h with h | h
+        · right; simp [h]
+        · rcases ih h with h' | h'
+          · left; exact h'
+          · right; simp [h']
+
+theorem mem_ssSet_self (k : String) (v : α) (l : List (String × α)) : (k, v) ∈ ssSet k v l := by
+  induction l with
+  | nil => simp [ssSet]
+  | cons p r ih =>
+    obtain ⟨k', v'⟩ := p
+    unfold ssSet
+    by_cases e1 : k = k'
+    · simp [e1]
+    · by_cases e2 : k < k'
+      · simp [e1, e2]
+      · simp only [e1, e2, if_false, List.mem_cons]; right; exact ih
+
+theorem mem_ssSet_of_ne (k : String) (v : α) (l : List (String × α)) (x : String × α) (h : x ∈ l) (hne : x.1 ≠ k) :
+    x ∈ ssSet k v l := by
+  induction l with
+  | nil => simp at h
+  | cons p r ih =>
+    obtain ⟨k', v'⟩ := p
+    unfold ssSet
+    by_cases e1 : k = k'
+    · simp only [e1, if_true, List.mem_cons]
+      rcases List.mem_cons.mp h with h | h
+      · exfalso; apply hne; rw [h, e1]
+      · right; exact h
+    · by_cases e2 : k < k'
+      · simp only [e1, e2, if_true, if_false, List.mem_cons]; right; exact List.mem_cons.mp h
+      · simp only [e1, e2, if_false, List.mem_cons]
+        rcases List.mem_cons.mp h with h | h
+        · left; exact h
+        · right; exact ih h
+
+end Writers
+
+theorem avsValue_ssSet_self (k : String) (v : Int) (l : List (String × Int)) : avsValue (ssSet k v l) k = some v := by
+  induction l with
+  | nil => simp [ssSet, avsValue]
+  | cons p r ih =>
+    obtain ⟨k', v'⟩ := p
+    unfold ssSet
+    by_cases e1 : k = k'
+    · simp [e1, avsValue]
+    · by_cases e2 : k < k'
+      · simp [e1, e2, avsValue]
+      · have hne : (k' == k) = false := by simpa using fun h : k' = k => e1 h.symm
+        simp only [e1, e2, if_false]
+        unfold avsValue at ih ⊢
+        simp only [List.find?, hne]
+        exact ih
+
+theorem avsValue_ssSet_other (k k2 : String) (v : Int) (l : List (String × Int)) (hne : k2 ≠ k) :
+    avsValue (ssSet k v l) k2 = avsValue l k2 := by
+  have hk : (k == k2) = false := by simpa using fun h : k = k2 => hne h.symm
+  induction l with
+  | nil => simp [ssSet, avsValue, hk]
+  | cons p r ih =>
+    obtain ⟨k', v'⟩ := p
+    unfold ssSet
+    by_cases e1 : k = k'
+    · have hk' : (k' == k2) = false := by rw [← e1]; exact hk
+      simp [e1, avsValue, List.find?, hk']
+    · by_cases e2 : k < k'
+      · simp [e1, e2, avsValue, List.find?, hk]
+      · simp only [e1, e2, if_false]
+        unfold avsValue at ih ⊢
+        by_cases e3 : (k' == k2) = true
+        · simp [List.find?, e3]
+        · have e3' : (k' == k2) = false := by simpa using e3
+          simp only [List.find?, e3']
+          exact ih
+
+/-- the opted AVSs only grow when an opted state is written under a key whose old entry (if any) names the same AVS -/
+theorem optedAVSs_ssSet (k : String) (v : OptState) (l : List (String × OptState)) (a : String)
+    (hk : ∀ q ∈ l, q.1 = k → q.2.avs = v.avs) (ha : a ∈ optedAVSs (l.map (·.2))) :
+    a ∈ optedAVSs ((ssSet k v l).map (·.2)) := by
+  simp only [optedAVSs, List.map_map, List.mem_map, Function.comp] at ha ⊢
+  obtain ⟨q, hq, rfl⟩ := ha
+  by_cases e : q.1 = k
+  · exact ⟨(k, v), mem_ssSet_self k v l, (hk q hq e).symm⟩
+  · exact ⟨q, mem_ssSet_of_ne k v l q hq e, rfl⟩
+
+theorem avsValue_nonneg (l : List (String × Int)) (h : ∀ a ∈ l, 0 ≤ a.2) (k : String) : 0 ≤ (avsValue l k).getD 0 := by
+  unfold avsValue
+  cases hf : l.find? (fun a => a.1 == k) with
+  | none => simp
+  | some a => simpa using h a (List.mem_of_find?_eq_some hf)
+
+/-- the part of `OpValidInv` that concerns the USD values -/
+structure ValueInv (s : OperatorMod) : Prop where
+  avsNN : ∀ a ∈ s.avsUsd, 0 ≤ a.2
+  activeNN : ∀ p ∈ s.usd, 0 ≤ p.2.active
+  usdOpted : ∀ p ∈ s.usd, p.2.avs ∈ optedAVSs (s.optStates.map (·.2))
+  avsBacked : ∀ a ∈ s.avsUsd, a.2 ≠ 0 → a.1 ∈ optedAVSs (s.optStates.map (·.2))
+  activeCovered : ∀ p ∈ s.usd, p.2.active ≤ (avsValue s.avsUsd p.2.avs).getD 0
+
+theorem OpValidInv.values {s : OperatorMod} (hv : OpValidInv s) : ValueInv s :=
+  ⟨hv.avsNN, fun p hp => (hv.usdOK p hp).2.2.1, hv.usdOpted, hv.avsBacked, hv.activeCovered⟩
+
+/-- **OptIn keeps the value invariants** (`hk`: an opted state already stored under the key operator/avs — an earlier,
+    opted-out one — names the same AVS: keys are built from the two ids, which contain no "/") -/
+theorem C18_operator_inv_optIn (s : OperatorMod) (operator avs : String) (height : Nat) (h : ValueInv s)
+    (hk : ∀ q ∈ s.optStates, q.1 = joinKey operator avs → q.2.avs = avs) : ValueInv (optIn s operator avs height) := by
+  have hmono : ∀ a, a ∈ optedAVSs (s.optStates.map (·.2)) → a ∈ optedAVSs ((optIn s operator avs height).optStates.map (·.2)) :=
+    fun a ha => optedAVSs_ssSet _ _ _ a hk ha
+  have hnew : avs ∈ optedAVSs ((optIn s operator avs height).optStates.map (·.2)) := by
+    simp only [optedAVSs, List.map_map, List.mem_map, Function.comp]
+    exact ⟨_, mem_ssSet_self _ _ _, rfl⟩
+  refine ⟨h.avsNN, ?_, ?_, fun a ha hz => hmono _ (h.avsBacked a ha hz), ?_⟩
+  · intro p hp
+    rcases mem_ssSet _ _ _ p hp with rfl | hp
+    · exact Int.le_refl 0
+    · exact h.activeNN p hp
+  · intro p hp
+    rcases mem_ssSet _ _ _ p hp with rfl | hp
+    · exact hnew
+    · exact hmono _ (h.usdOpted p hp)
+  · intro p hp
+    rcases mem_ssSet _ _ _ p hp with rfl | hp
+    · exact avsValue_nonneg s.avsUsd h.avsNN avs
+    · exact h.activeCovered p hp
+
+/-- **OptOut keeps the value invariants**: the entry goes, the opted state stays (with its AVS) -/
+theorem C18_operator_inv_optOut (s : OperatorMod) (operator avs : String) (height : Nat) (h : ValueInv s) :
+    ValueInv (optOut s operator avs height) := by
+  have hsame : optedAVSs ((optOut s operator avs height).optStates.map (·.2)) = optedAVSs (s.optStates.map (·.2)) := by
+    simp only [optOut, optedAVSs, List.map_map]
+    apply List.map_congr_left
+    intro p _
+    by_cases e : p.1 = joinKey operator avs <;> simp [e]
+  have hsub : ∀ p ∈ (optOut s operator avs height).usd, p ∈ s.usd := fun p hp => (List.mem_filter.mp hp).1
+  refine ⟨h.avsNN, fun p hp => h.activeNN p (hsub p hp), ?_, ?_, fun p hp => h.activeCovered p (hsub p hp)⟩
+  · intro p hp; rw [hsame]; exact h.usdOpted p (hsub p hp)
+  · intro a ha hz; rw [hsame]; exact h.avsBacked a ha hz
+
+theorem foldl_active_ge (l : List OpUSD) (hnn : ∀ u ∈ l, 0 ≤ u.active) (acc : Int) :
+    acc ≤ l.foldl (fun a u => a + u.active) acc ∧ ∀ x ∈ l, acc + x.active ≤ l.foldl (fun a u => a + u.active) acc := by
+  induction l generalizing acc with
+  | nil => simp
+  | cons u r ih =>
+    have hu := hnn u (by simp)
+    obtain ⟨h1, h2⟩ := ih (fun x hx => hnn x (by simp [hx])) (acc + u.active)
+    simp only [List.foldl_cons]
+    refine ⟨by omega, ?_⟩
+    intro x hx
+    rcases List.mem_cons.mp hx with rfl | hx
+    · exact h1
+    · have := h2 x hx
+      omega
+
+theorem foldl_active_zero (l : List OpUSD) (hz : ∀ u ∈ l, u.active = 0) (acc : Int) :
+    l.foldl (fun a u => a + u.active) acc = acc := by
+  induction l generalizing acc with
+  | nil => rfl
+  | cons u r ih =>
+    simp only [List.foldl_cons, hz u (by simp), Int.add_zero]
+    exact ih (fun x hx => hz x (by simp [hx])) acc
+
+/-- **UpdateVotingPower keeps the value invariants** (`hst`: CalculateUSDValueForOperator returns a non-negative total) -/
+theorem C18_operator_inv_epochEnd (s : OperatorMod) (avs : String) (minSelf : Int) (stake : String → Int × Int)
+    (h : ValueInv s) (hst : ∀ o, 0 ≤ (stake o).2) : ValueInv (epochEnd s avs minSelf stake) := by
+  -- the updated entries
+  let upd : OpUSD → OpUSD := fun u =>
+    if u.avs = avs then ⟨u.avs, u.operator, (stake u.operator).1, (stake u.operator).2, if minSelf ≤ (stake u.operator).1 then (stake u.operator).2 else 0⟩
+    else u
+  have hupd_avs : ∀ u, (upd u).avs = u.avs := by
+    intro u; simp only [upd]; by_cases e : u.avs = avs <;> simp [e]
+  have hupd_nn : ∀ u, 0 ≤ u.active → 0 ≤ (upd u).active := by
+    intro u hu; simp only [upd]
+    by_cases e : u.avs = avs
+    · simp only [e, if_true]
+      by_cases e2 : minSelf ≤ (stake u.operator).1
+      · simp only [e2, if_true]; exact hst _
+      · simp only [e2, if_false]; exact Int.le_refl 0
+    · simp [e, hu]
+  have husd : (epochEnd s avs minSelf stake).usd = s.usd.map (fun p => (p.1, upd p.2)) := rfl
+  let members := ((s.usd.map (fun p => (p.1, upd p.2))).map (·.2)).filter (fun u => u.avs == avs)
+  have hmem_nn : ∀ u ∈ members, 0 ≤ u.active := by
+    intro u hu
+    obtain ⟨hu1, _⟩ := List.mem_filter.mp hu
+    simp only [List.map_map, List.mem_map, Function.comp] at hu1
+    obtain ⟨p, hp, rfl⟩ := hu1
+    exact hupd_nn _ (h.activeNN p hp)
+  have havs : (epochEnd s avs minSelf stake).avsUsd = ssSet avs (members.foldl (fun a u => a + u.active) 0) s.avsUsd := rfl
+  have hpow_nn : 0 ≤ members.foldl (fun a u => a + u.active) 0 := (foldl_active_ge members hmem_nn 0).1
+  refine ⟨?_, ?_, ?_, ?_, ?_⟩
+  · intro a ha
+    rw [havs] at ha
+    rcases mem_ssSet _ _ _ a ha with rfl | ha
+    · exact hpow_nn
+    · exact h.avsNN a ha
+  · intro p hp
+    rw [husd] at hp
+    obtain ⟨q, hq, rfl⟩ := List.mem_map.mp hp
+    exact hupd_nn _ (h.activeNN q hq)
+  · intro p hp
+    rw [husd] at hp
+    obtain ⟨q, hq, rfl⟩ := List.mem_map.mp hp
+    show (upd q.2).avs ∈ _
+    rw [hupd_avs]
+    exact h.usdOpted q hq
+  · intro a ha hz
+    rw [havs] at ha
+    rcases mem_ssSet _ _ _ a ha with rfl | ha
+    · -- a non-zero sum has a summand: an entry of the AVS, hence an opted state
+      apply Classical.byContradiction
+      intro hno
+      apply hz
+      show members.foldl (fun a u => a + u.active) 0 = 0
+      cases hm : members with
+      | nil => rfl
+      | cons u r =>
+        exfalso
+        have hu : u ∈ members := by rw [hm]; simp
+        obtain ⟨hu1, hu2⟩ := List.mem_filter.mp hu
+        simp only [List.map_map, List.mem_map, Function.comp] at hu1
+        obtain ⟨p, hp, rfl⟩ := hu1
+        have e : (upd p.2).avs = avs := by simpa using hu2
+        rw [hupd_avs] at e
+        exact hno (e ▸ h.usdOpted p hp)
+    · exact h.avsBacked a ha hz
+  · intro p hp
+    rw [husd] at hp
+    obtain ⟨q, hq, rfl⟩ := List.mem_map.mp hp
+    show (upd q.2).active ≤ (avsValue (epochEnd s avs minSelf stake).avsUsd (upd q.2).avs).getD 0
+    rw [havs, hupd_avs]
+    by_cases e : q.2.avs = avs
+    · rw [e, avsValue_ssSet_self]
+      have hin : upd q.2 ∈ members := by
+        apply List.mem_filter.mpr
+        refine ⟨?_, by simp [hupd_avs, e]⟩
+        simp only [List.map_map, List.mem_map, Function.comp]
+        exact ⟨q, hq, rfl⟩
+      have := (foldl_active_ge members hmem_nn 0).2 _ hin
+      simpa using this
+    · rw [avsValue_ssSet_other _ _ _ _ e]
+      have : upd q.2 = q.2 := by simp [upd, e]
+      rw [this]
+      exact h.activeCovered q hq
 
 /-! ### witnesses -/
 
@@ -245,31 +581,35 @@ theorem storeInv_of_decide (s : OperatorMod)
   exact ⟨a, b, c, d, e, f, g⟩
 
 theorem validInv_of_decide (s : OperatorMod)
-    (h : decide ((dedupAdj (s.keys.map (·.1))).Nodup) && s.keys.all (fun k => (s.operators.map (·.1)).contains k.1) &&
+    (h : (decide ((dedupAdj (s.keys.map (·.1))).Nodup) && s.keys.all (fun k => (s.operators.map (·.1)).contains k.1) &&
          decide ((s.keys.map (·.2)).Nodup) &&
          s.optStates.all (fun p => (s.operators.map (·.1)).contains p.2.operator && decide (p.2.inH ≤ p.2.outH)) &&
          s.avsUsd.all (fun a => decide (0 ≤ a.2)) &&
          s.usd.all (fun p => decide (0 ≤ p.2.self) && decide (p.2.self ≤ p.2.total) && decide (0 ≤ p.2.active) &&
-                      decide (p.2.active ≤ p.2.total) && (s.operators.map (·.1)).contains p.2.operator) = true) : OpValidInv s := by
-  simp only [Bool.and_eq_true, decide_eq_true_eq, List.all_eq_true, List.contains_iff_mem] at h
-  obtain ⟨⟨⟨⟨⟨a, b⟩, c⟩, d⟩, e⟩, f⟩ := h
-  refine ⟨a, ?_, c, ?_, e, ?_⟩
+                      decide (p.2.active ≤ p.2.total) && (s.operators.map (·.1)).contains p.2.operator) &&
+         s.usd.all (fun p => (optedAVSs (s.optStates.map (·.2))).contains p.2.avs) &&
+         s.avsUsd.all (fun a => a.2 == 0 || (optedAVSs (s.optStates.map (·.2))).contains a.1) &&
+         s.usd.all (fun p => decide (p.2.active ≤ (avsValue s.avsUsd p.2.avs).getD 0))) = true) : OpValidInv s := by
+  simp only [Bool.and_eq_true, Bool.or_eq_true, decide_eq_true_eq, List.all_eq_true, List.contains_iff_mem, beq_iff_eq] at h
+  obtain ⟨⟨⟨⟨⟨⟨⟨⟨a, b⟩, c⟩, d⟩, e⟩, f⟩, g⟩, i⟩, j⟩ := h
+  refine ⟨a, ?_, c, ?_, e, ?_, ?_, ?_, j⟩
   · intro k hk; simpa using b k hk
   · intro p hp; have := d p hp; exact ⟨by simpa using this.1, this.2⟩
   · intro p hp
     obtain ⟨⟨⟨⟨x1, x2⟩, x3⟩, x4⟩, x5⟩ := f p hp
     exact ⟨x1, x2, x3, x4, by simpa using x5⟩
+  · intro p hp; simpa using g p hp
+  · intro x hx hz
+    rcases i x hx with h0 | h1
+    · exact absurd h0 hz
+    · simpa using h1
 
 theorem baseState_store : OpStoreInv baseState := storeInv_of_decide _ (by decide)
 theorem baseState_valid : OpValidInv baseState := validInv_of_decide _ (by decide)
 
-/-- the hypotheses of the partial theorem are met by a non-trivial state, and its export validates and re-imports -/
-example : AvsOpted baseState := by intro a ha; revert a ha; decide
-example : UsdCovered baseState := by
-  intro p hp
-  simp only [baseState, List.mem_cons, List.mem_nil_iff, or_false] at hp
-  rcases hp with rfl | rfl | rfl <;> exact ⟨351, by decide, by decide⟩
+/-- a non-trivial state meets the invariants; its export validates (before and after the repairs) and re-imports -/
 example : validateOperator (exportOperator baseState) = true := by decide
+example : validatePreFix (exportOperator baseState) = true := by decide
 example : initOperator (exportOperator baseState) = some baseState := by decide
 
 /-- boundary: ONE operator in an AVS (its total EQUALS the AVS's value), self = total = active; a second entry 0/0/0 -/
@@ -287,7 +627,7 @@ theorem C18_operator_equal_figures_validate :
     initOperator (exportOperator singleState) = some singleState :=
   ⟨storeInv_of_decide _ (by decide), validInv_of_decide _ (by decide), by decide, by decide⟩
 
-/-- **F-18o.** opA opts into avs2 (registered in the running epoch, no USD value written yet) -/
+/-- **F-18o (repaired).** opA opts into avs2 (registered in the running epoch, no USD value written yet) -/
 def optedInState : OperatorMod :=
   { baseState with
     optStates := [(joinKey opA chainAVS, ⟨opA, chainAVS, 1, never⟩), (joinKey opA avs2, ⟨opA, avs2, 5, never⟩),
@@ -297,16 +637,18 @@ def optedInState : OperatorMod :=
 /-- it is what OptIn makes of the base state -/
 theorem optedInState_reached : optIn baseState opA avs2 5 = optedInState := by decide
 
-theorem C18_operator_optin_before_epoch_end_fails :
-    OpStoreInv optedInState ∧ OpValidInv optedInState ∧ validateOperator (exportOperator optedInState) = false ∧
-    initOperator (exportOperator optedInState) = some optedInState :=
-  ⟨storeInv_of_decide _ (by decide), validInv_of_decide _ (by decide), by decide, by decide⟩
+/-- the reachable export the pre-repair validator rejected ("the parsed AVS address should be in the avsUSDValues map");
+    the repaired one accepts it, and it re-imports -/
+theorem C18_regression_F18o :
+    OpStoreInv optedInState ∧ OpValidInv optedInState ∧ validatePreFix (exportOperator optedInState) = false ∧
+    validateOperator (exportOperator optedInState) = true ∧ initOperator (exportOperator optedInState) = some optedInState :=
+  ⟨storeInv_of_decide _ (by decide), validInv_of_decide _ (by decide), by decide, by decide, by decide⟩
 
-/-- one AVS epoch end later the same state validates: the gap is the epoch of the opt-in -/
-example : validateOperator (exportOperator (epochEnd optedInState avs2 0 (fun _ => (101, 101)))) = true := by decide
+/-- one AVS epoch end later the pre-repair validator accepted the state too: the gap was the epoch of the opt-in -/
+example : validatePreFix (exportOperator (epochEnd optedInState avs2 0 (fun _ => (101, 101)))) = true := by decide
 
-/-- **F-18p.** opB undelegated 10 of its own 100 (self 90 < 100: inactive) and stakers delegated 300 to it: at the epoch
-    end its total is 390, the AVS's value 101 + 150 -/
+/-- **F-18p (repaired).** opB undelegated 10 of its own 100 (self 90 < 100: inactive) and stakers delegated 300 to it: at
+    the epoch end its total is 390, the AVS's value 101 + 150 -/
 def inactiveState : OperatorMod :=
   { baseState with
     usd := [(joinKey chainAVS opA, ⟨chainAVS, opA, 101, 101, 101⟩), (joinKey chainAVS opB, ⟨chainAVS, opB, 90, 390, 0⟩),
@@ -318,26 +660,37 @@ theorem inactiveState_reached :
     epochEnd baseState chainAVS 100 (fun o => if o = opB then (90, 390) else if o = opA then (101, 101) else (150, 150)) =
       inactiveState := by decide
 
-theorem C18_operator_inactive_total_fails :
-    OpStoreInv inactiveState ∧ OpValidInv inactiveState ∧ validateOperator (exportOperator inactiveState) = false ∧
-    initOperator (exportOperator inactiveState) = some inactiveState :=
-  ⟨storeInv_of_decide _ (by decide), validInv_of_decide _ (by decide), by decide, by decide⟩
+/-- rejected before the repair ("the total USD value of operator shouldn't be greater than the total USD value of the
+    AVS"), accepted now -/
+theorem C18_regression_F18p :
+    OpStoreInv inactiveState ∧ OpValidInv inactiveState ∧ validatePreFix (exportOperator inactiveState) = false ∧
+    validateOperator (exportOperator inactiveState) = true ∧ initOperator (exportOperator inactiveState) = some inactiveState :=
+  ⟨storeInv_of_decide _ (by decide), validInv_of_decide _ (by decide), by decide, by decide, by decide⟩
 
-/-- **F-18r.** avs2 exists, nobody opted in, its epoch ends -/
+/-- **F-18r (repaired).** avs2 exists, nobody opted in, its epoch ends -/
 def lonelyAvsState : OperatorMod := { baseState with avsUsd := [(chainAVS, 351), (avs2, 0)] }
 
 theorem lonelyAvsState_reached : epochEnd baseState avs2 0 (fun _ => (0, 0)) = lonelyAvsState := by decide
 
-theorem C18_operator_avs_without_operators_fails :
-    OpStoreInv lonelyAvsState ∧ OpValidInv lonelyAvsState ∧ validateOperator (exportOperator lonelyAvsState) = false ∧
-    initOperator (exportOperator lonelyAvsState) = some lonelyAvsState :=
-  ⟨storeInv_of_decide _ (by decide), validInv_of_decide _ (by decide), by decide, by decide⟩
+/-- rejected before the repair ("the avs address should be in the opted-in map"), accepted now -/
+theorem C18_regression_F18r :
+    OpStoreInv lonelyAvsState ∧ OpValidInv lonelyAvsState ∧ validatePreFix (exportOperator lonelyAvsState) = false ∧
+    validateOperator (exportOperator lonelyAvsState) = true ∧ initOperator (exportOperator lonelyAvsState) = some lonelyAvsState :=
+  ⟨storeInv_of_decide _ (by decide), validInv_of_decide _ (by decide), by decide, by decide, by decide⟩
 
-theorem C18_operator_full_fails : ¬ C18_operator_full := by
+/-- the full statement was false for the pre-repair validator -/
+theorem C18_regression_operator_full_prefix_fails :
+    ¬ (∀ s : OperatorMod, OpStoreInv s → OpValidInv s → validatePreFix (exportOperator s) = true) := by
   intro h
-  have := h optedInState C18_operator_optin_before_epoch_end_fails.1 C18_operator_optin_before_epoch_end_fails.2.1
-  rw [C18_operator_optin_before_epoch_end_fails.2.2.1] at this
+  have := h optedInState C18_regression_F18o.1 C18_regression_F18o.2.1
+  rw [C18_regression_F18o.2.2.1] at this
   exact Bool.false_ne_true this
+
+/-- the repaired validator still rejects what it should: an AVS value that is not zero for an AVS without opted state, an
+    active value above the AVS's value, an active value above zero for an AVS without value -/
+example : validateOperator (exportOperator { baseState with avsUsd := [(chainAVS, 351), (avs2, 5)] }) = false := by decide
+example : validateOperator (exportOperator { baseState with avsUsd := [(chainAVS, 100)] }) = false := by decide
+example : validateOperator (exportOperator { baseState with avsUsd := [] }) = false := by decide
 
 /-! ## F-18q: the reverse lookup of a previous key of an operator outside the validator set -/
 
